@@ -25,6 +25,7 @@ import (
 	"github.com/libsv/go-bt/v2/bscript"
 	"github.com/libsv/go-bt/v2/bscript/interpreter"
 	"github.com/libsv/go-bt/v2/bscript/interpreter/scriptflag"
+	"github.com/libsv/go-bt/v2/sighash"
 	"github.com/libsv/go-bt/v2/unlocker"
 	"github.com/libsv/go-bt/v2/zzverif/vsync"
 
@@ -475,7 +476,14 @@ type engCase struct {
 	// withShared builds the option list around an option VALUE that all Execute calls of one
 	// run share (an option is a value: using it in one call must not change what it means in another)
 	withShared func(shared interpreter.ExecutionOptionFunc) []interpreter.ExecutionOptionFunc
+	// want: the verdict the script rules give ("true"/"false"; "" = judged only against the
+	// sequential run). A sequential run of the library cannot serve as the only reference: state
+	// that survives an execution (a recycled interpreter thread) spoils it in the same way.
+	want string
 }
+
+// engineWants: index -> verdict by the rules, for the cases whose verdict does not depend on an option order.
+var engineWants = map[int]string{0: "true", 1: "false", 2: "true", 3: "false", 4: "true", 5: "true", 6: "true", 11: "false", 12: "false", 13: "true"}
 
 // options returns the option list of the case for one Execute call.
 func (c engCase) options(shared interpreter.ExecutionOptionFunc) []interpreter.ExecutionOptionFunc {
@@ -553,9 +561,35 @@ func buildEngineCases() []engCase {
 			{name: "two OP_ELSE (rejected after genesis)", opts: func() []interpreter.ExecutionOptionFunc {
 				return []interpreter.ExecutionOptionFunc{interpreter.WithScripts(bscript.NewFromBytes([]byte{0x63, 0x51, 0x67, 0x00, 0x67, 0x51, 0x68}), bscript.NewFromBytes([]byte{0x51})), interpreter.WithAfterGenesis()}
 			}},
+			// an execution that FAILS after a post-genesis OP_RETURN inside an unterminated conditional
+			// (it ends with the early-return state set): what follows it must not inherit anything
+			{name: "1 | IF RETURN after genesis (fails in early-return state)", opts: func() []interpreter.ExecutionOptionFunc {
+				return []interpreter.ExecutionOptionFunc{interpreter.WithScripts(bscript.NewFromBytes([]byte{0x63, 0x6a}), bscript.NewFromBytes([]byte{0x51})), interpreter.WithAfterGenesis()}
+			}},
+			legacySingleSpend(mkKey(4)),
 		}
 	})
 	return engCases
+}
+
+// legacySingleSpend: two inputs, one output; input 1 is signed with the LEGACY SIGHASH_SINGLE type
+// and has no matching output (the digest is the constant one); verified without the FORKID flag.
+func legacySingleSpend(k *bec.PrivateKey) engCase {
+	lock, _ := bscript.NewP2PKHFromPubKeyBytes(k.PubKey().SerialiseCompressed())
+	tx := bt.NewTx()
+	for i := 0; i < 2; i++ {
+		txid := make([]byte, 32)
+		txid[0], txid[1] = 0x51, byte(i)
+		_ = tx.FromUTXOs(&bt.UTXO{TxID: txid, Vout: uint32(i), Satoshis: 1000, LockingScript: lock})
+	}
+	_ = tx.PayToAddress("1BgGZ9tcN4rm9KBzDn7KprQz87SZ26SAMH", 900)
+	_ = tx.FillInput(context.Background(), &unlocker.Simple{PrivateKey: k}, bt.UnlockerParams{InputIdx: 0, SigHashFlags: sighash.All})
+	_ = tx.FillInput(context.Background(), &unlocker.Simple{PrivateKey: k}, bt.UnlockerParams{InputIdx: 1, SigHashFlags: sighash.Single})
+	raw := tx.Bytes()
+	return engCase{name: "legacy SINGLE without a matching output", opts: func() []interpreter.ExecutionOptionFunc {
+		t, _ := bt.NewTxFromBytes(raw)
+		return []interpreter.ExecutionOptionFunc{interpreter.WithTx(t, 1, &bt.Output{Satoshis: 1000, LockingScript: lock}), interpreter.WithAfterGenesis()}
+	}}
 }
 
 // medley is a script that ends with a true item and runs through many opcode families on the way.
@@ -673,6 +707,18 @@ func check(sc scenario, prefix []int) (fs []rep.Finding, r *vsync.Result, outcom
 		want := engineSequential(sc)
 		if fmt.Sprint(ex.verd) != fmt.Sprint(want) && !r.Deadlock {
 			fs = append(fs, rep.F("engine|verdicts-differ-from-sequential", fmt.Sprintf("concurrent verdicts %v, sequential %v", ex.verd, want)))
+		}
+		if !r.Deadlock && len(r.Panics) == 0 {
+			for ti, th := range sc.Threads {
+				got := strings.Split(ex.verd[ti], ",")
+				for oi, o := range th {
+					var idx int
+					fmt.Sscanf(o, "exec%d", &idx)
+					if w := engineWants[idx]; w != "" && oi < len(got) && got[oi] != w {
+						fs = append(fs, rep.F("engine|verdict-differs-from-the-rules|"+o, fmt.Sprintf("thread %d, call %d (%s): verdict %s, the script rules give %s", ti+1, oi+1, buildEngineCases()[idx].name, got[oi], w)))
+					}
+				}
+			}
 		}
 		outcome = fmt.Sprint(ex.verd)
 	}
@@ -866,6 +912,13 @@ func scenarios(thorough bool) []scenario {
 		scenario{Name: "engine-shared-option-2", Kind: "engine", Threads: [][]string{{"exec7"}, {"exec8"}}},
 		scenario{Name: "engine-shared-option-2x2", Kind: "engine", Threads: [][]string{{"exec7", "exec8"}, {"exec8", "exec7"}}},
 		scenario{Name: "engine-shared-option-3", Kind: "engine", Threads: [][]string{{"exec8"}, {"exec7"}, {"exec8"}}},
+		// after an execution that failed in the early-return state (nothing may survive it)
+		scenario{Name: "engine-after-failed-early-return-2x2", Kind: "engine", Threads: [][]string{{"exec12", "exec5"}, {"exec12", "exec6"}}},
+		scenario{Name: "engine-after-failed-early-return-3", Kind: "engine", Threads: [][]string{{"exec12", "exec2"}, {"exec5"}, {"exec6", "exec12"}}},
+		// the constant digest of legacy SIGHASH_SINGLE without a matching output, next to other hashing
+		scenario{Name: "engine-legacy-single-2", Kind: "engine", Threads: [][]string{{"exec13"}, {"exec0"}}},
+		scenario{Name: "engine-legacy-single-same", Kind: "engine", Threads: [][]string{{"exec13"}, {"exec13"}}},
+		scenario{Name: "engine-legacy-single-3", Kind: "engine", Threads: [][]string{{"exec13"}, {"exec4"}, {"exec13"}}},
 	)
 	return out
 }
@@ -965,7 +1018,7 @@ func main() {
 	r.Note("feequote_scenarios_with_a_single_outcome", singleOutcome)
 	r.Sample("schedule", map[string]any{"scenario": scs[13], "schedule": []int{0, 1, 0}})
 	r.Sample("schedule", map[string]any{"scenario": scs[len(scs)-2], "note": "engine: Execute has no lock operations; interleavings reduce to start orders, shared-state writes are caught by the happens-before monitor"})
-	os.Exit(r.Finish("stateless schedule exploration of the real fees.go / interpreter code (instrumented from the working tree at check time) under a cooperative scheduler: scheduling points before every Lock/RLock (a write lock first announces itself, modelling writer preference), at thread start and end; DFS over choice prefixes with iterative preemption bound 0,1,2 and then unbounded, every scenario explored to completion. Scenarios: every unordered pair of the 13 FeeQuote operations (incl. the lookup of a fee type the quote does not carry, and a transaction's fee being computed from the shared quote by the library) on 2 threads, triples of the 6 core operations on 3 threads, 2x2 combinations, every pair (thorough: triple) of 12 FeeQuotes operations incl. operations on the quote it hands out and lookups of an unregistered miner, failed lookups (of a miner, of a fee type) followed by writes, and 2-3 threads calling Execute on one engine with distinct transactions (P2PKH spends, script-only runs, post-genesis conditionals, scripts running through most opcode families, calls that share one option value). Oracles on every schedule: vector-clock happens-before race detection over EVERY access the type-checked instrumentation finds in packages bt, bscript and bscript/interpreter (struct fields reached through a pointer, package-level variables, locals aliasing a map/slice field) plus the harness's own reads of the *Fee values it is handed, deadlock, panics, linearizability against a plain-map sequential model (brute force over orders consistent with real time), every read returns a stored Fee/quote object reading as it was stored and no stored Fee object is modified in place, concurrent verdicts = sequential verdicts; recorded schedules replay deterministically (each finding is re-executed before it is reported)"))
+	os.Exit(r.Finish("stateless schedule exploration of the real fees.go / interpreter code (instrumented from the working tree at check time) under a cooperative scheduler: scheduling points before every Lock/RLock (a write lock first announces itself, modelling writer preference), at thread start and end; DFS over choice prefixes with iterative preemption bound 0,1,2 and then unbounded, every scenario explored to completion. Scenarios: every unordered pair of the 13 FeeQuote operations (incl. the lookup of a fee type the quote does not carry, and a transaction's fee being computed from the shared quote by the library) on 2 threads, triples of the 6 core operations on 3 threads, 2x2 combinations, every pair (thorough: triple) of 12 FeeQuotes operations incl. operations on the quote it hands out and lookups of an unregistered miner, failed lookups (of a miner, of a fee type) followed by writes, and 2-3 threads calling Execute on one engine with distinct transactions (P2PKH spends, script-only runs, post-genesis conditionals, scripts running through most opcode families, calls that share one option value, executions that follow one that failed in the post-genesis early-return state, a legacy SIGHASH_SINGLE spend without matching output next to other hashing). Oracles on every schedule: vector-clock happens-before race detection over EVERY access the type-checked instrumentation finds in packages bt, bscript and bscript/interpreter (struct fields reached through a pointer, package-level variables, locals aliasing a map/slice field) plus the harness's own reads of the *Fee values it is handed, deadlock, panics, linearizability against a plain-map sequential model (brute force over orders consistent with real time), every read returns a stored Fee/quote object reading as it was stored and no stored Fee object is modified in place, concurrent verdicts = sequential verdicts = the verdicts the script rules give (stated per case, because state that survives an execution spoils a sequential run of the library just as well); recorded schedules replay deterministically (each finding is re-executed before it is reported)"))
 }
 
 // freeRun executes the scenario bodies without the scheduler (real mutexes, real
